@@ -118,3 +118,22 @@ func c05Late(c *fw.Ctx) {
 		}
 	}
 }
+
+// c05HandlerErrors: what the handler returns is what the client receives - also when it is an
+// error, and also when it is the n-th call of a composite command that fails.
+func c05HandlerErrors(c *fw.Ctx) {
+	for _, it := range catalogue() {
+		if it.Kind != "handler-error" || !c.Mine() {
+			continue
+		}
+		c.Eval()
+		c.Nontrivial()
+		r := runDouble(seq.Script{Input: it.Bytes}, func(s *redis.Server, d *srv.Double) { catalogueDouble(d) })
+		if cl, _ := crashClause(r.Out); cl != "" {
+			continue // C07
+		}
+		if len(r.Replies) != 1 || !r.Replies[0].IsError() || !strings.Contains(string(r.Replies[0].Data), "handler failed") {
+			c.Violation("C05|"+it.Label[:strings.IndexByte(it.Label, '|')]+"|handler-error|reply-not-handler-result", fmt.Sprintf("the handler returned the error \"handler failed\" for one of its calls (%s), the client received %s", callsString(r.Double.Calls), valuesString(r.Replies)), c05Case{Kind: "handler-error", Args: nil, Shape: it.Label})
+		}
+	}
+}
